@@ -18,11 +18,11 @@ from harness import common, modelrun
 
 COORDS = [0, 2, 4, 5, 8]
 CENTRES = [3, 4, 5]
-RADII = [0, 1, 2, 5]
+RADII = [-2, 0, 1, 2, 5]      # a negative radius is an empty disc
 PMAX = 9
 # (scale, offset): parameter = (lattice + offset) * scale, all exactly representable
 FRAMES = [(1.0, 0.0), (0.5, 0.0), (0.25, 16.0), (8.0, -4.0), (1.0, 100.0), (2.0 ** -10, 0.0),
-          (1.0, -4.0), (3.0, 0.0)]
+          (1.0, -4.0), (3.0, 0.0), (2.0 ** -14, 0.0)]
 
 
 def lattice_regions():
@@ -107,8 +107,9 @@ def run(tier, seed):
     rng = random.Random(seed)
     consts = {"Coords": "{%s}" % ", ".join(map(str, COORDS)),
               "Centres": "{%s}" % ", ".join(map(str, CENTRES)),
-              "Radii": "{%s}" % ", ".join(map(str, RADII)), "PMax": PMAX}
-    cfg = modelrun.write_cfg("mc-C17", consts, ["ContainsSound", "CornerOrder", "Degenerate"],
+              "Radii": "{%s}" % ", ".join(str(r) for r in RADII if r >= 0),
+              "NegRadii": "{%s}" % ", ".join(str(-r) for r in RADII if r < 0), "PMax": PMAX}
+    cfg = modelrun.write_cfg("mc-C17", consts, ["ContainsSound", "CornerOrder", "Degenerate", "EmptyDisc"],
                              constraint=None, view=None)
     mc = modelrun.model_check("MC_Geometry", cfg)
     if mc["violated"]:
@@ -116,7 +117,7 @@ def run(tier, seed):
     regs = lattice_regions()
     distinct = sorted(set((r[0],) + tuple(spec_region(r)[k] for k in "abcd") for r in regs))
     events_pt, events_cr = [], []
-    frames = FRAMES if tier == "thorough" else FRAMES[:5]
+    frames = FRAMES if tier == "thorough" else FRAMES[:6]
     # containsPoint + corner orders: every region, every frame
     for reg in regs:
         if reg[0] == "rect" and not (reg[1] <= reg[3] and reg[2] <= reg[4]):
@@ -180,7 +181,8 @@ def run(tier, seed):
                        "GeoProof.tla",
         "model_checking": [{"slice": "MC_Geometry", "states": mc["states"],
                             "constants": consts,
-                            "invariants": ["ContainsSound", "CornerOrder", "Degenerate"]}],
+                            "invariants": ["ContainsSound", "CornerOrder", "Degenerate",
+                                           "EmptyDisc"]}],
     }
     common.write_evidence("C17", {
         "property_id": "C17", "tier": tier, "seed": seed, "level": "model_checking",
